@@ -15,7 +15,7 @@ import subprocess
 import sys
 
 VERIF = os.path.dirname(os.path.dirname(os.path.abspath(__file__)))
-ALL = ['C%02d' % i for i in range(1, 21) if i != 9]
+ALL = ['C%02d' % i for i in range(1, 21)]
 
 
 def sh(cmd, **kw):
@@ -60,8 +60,10 @@ def main():
                 meta['baseline_with_patch'] = r.stdout.strip().splitlines()
                 meta['ran'].append('tools/baseline_check.py (stable-pass tests of BASELINE.json with the patch applied)')
             checks = {}
-            for p in ALL:
-                r = sh('./check %s --no-evidence' % p, cwd=VERIF)
+            from concurrent.futures import ThreadPoolExecutor
+            with ThreadPoolExecutor(16) as ex:
+                results = list(ex.map(lambda p: (p, sh('./check %s --no-evidence' % p, cwd=VERIF)), ALL))
+            for p, r in results:
                 keys = re.findall(r'^pyphysim/\S+ \[([^\]]+)\]', r.stdout, flags=re.M)
                 err = [l[:200] for l in r.stdout.splitlines() if l.startswith('ANALYSIS-ERROR')]
                 if r.returncode != 0:
